@@ -430,6 +430,13 @@ def gen_functions(run):
         cases.append({"text": f"10 X={a}:X=ABS(INT(X)):M(1)={a}:M(1)=INT(M(1))\n", "features": {"function", "result-into-operand", "fn:INT"}, "origin": f"X=ABS(INT(X)) {a}"})
     for t in ('S$=STRING$(2,S$)', 'S$=HEX$(LEN(S$))', 'T=1:T=INSTR(T,S$,"C")', 'S$="CAC":T=2:T=INSTR(T,S$,"C")', 'S$="CAC":T=2:T=INSTR(T,S$,"C")+T', 'S$=STRING$(3,S$)+S$', 'T$=STR$(VAL(T$))', 'X=3:X=VAL(T$)+X'):
         cases.append({"text": f'10 S$="ABC":T$="12"\n20 {t}\n', "features": {"function", "result-into-operand"} | ({"fn:STR$"} if "STR$" in t else set()), "origin": t})
+    # string functions whose result is longer than BASIC09's default 32 bytes, requested string size 64 / 80 / 255
+    for st in (64, 80, 255):
+        o = {"initialize_vars": True, "default_str_storage": st}
+        for t in ('A$=STRING$(40,"-")+">":Z=LEN(A$)', 'A$="<"+STRING$(33,"x")+HEX$(255):Z=LEN(A$)', 'B$=STRING$(20,"ab"):A$=B$+B$+"!":Z=LEN(A$)',
+                  'Z=2:IF STRING$(40,"a")+"b">STRING$(40,"a")+"a" THEN Z=1', 'A$=LEFT$(STRING$(50,"q"),41)+MID$("XYZ",2,1):Z=ASC(RIGHT$(A$,1))',
+                  'Z=INSTR(1,STRING$(36,"-")+"AB","AB")', 'Z=LEN(STRING$(33,"*")+STRING$(20,"+"))', 'A$=STRING$(33,CHR$(65)):Z=VAL(HEX$(LEN(A$)))'):
+            cases.append({"text": f"10 {t}\n", "opts": o, "features": {"function", "long-string", "storage:%d" % st}, "origin": f"long {t} size {st}"})
     # functions inside IF conditions: every branch form; thresholds on both sides of the Color BASIC value
     import math
     from vf.decb import model as D
